@@ -38,7 +38,9 @@ def gen_classes(rng, n, shapes, depth=3):
                 base = rng.choice(cands)
         depths.append(1 if base is None else depths[base] + 1)
         classes.append({'base': base, 'shape': rng.choice(shapes),
-                        'rename': rng.random() < 0.3})
+                        'rename': rng.random() < 0.3,
+                        # components may be falsy objects
+                        'falsy': rng.choice([None] * 5 + ['bool', 'len'])})
     return classes
 
 
@@ -229,6 +231,10 @@ class Driver:
                 name = RENAMED[k] if spec['rename'] else KIND_EVENT[k]
                 own[KIND_EVENT[k]] = name
                 ns[name] = _callback(driver, KIND_NAME[k])
+            if spec.get('falsy') == 'bool':
+                ns['__bool__'] = lambda self: False
+            elif spec.get('falsy') == 'len':
+                ns['__len__'] = lambda self: 0
             cls = type(f'K{i}', (base,), ns)
             if own:
                 if spec['rename']:
